@@ -201,6 +201,19 @@ theorem written_lib_function_of_map {v v' : PV} (h : Reorder v v') (hw : WF v) :
   have := sortRec_reorder h hw
   exact ⟨this, by rw [this]⟩
 
+/-- **reorder_implies_eq**: a lib rebuilt in another insertion order (at the dictionaries the sort reaches)
+    compares equal to the original under `plist::Value::eq` — for values whose dictionaries have distinct
+    keys at every depth, also inside arrays (`WFAll`: what `plist::Dictionary` guarantees). -/
+theorem reorder_implies_eq {v v' : PV} (h : Reorder v v') (hw : WFAll v) : pvEq v v' = true :=
+  pvEq_of_reorder h hw
+
+/-- **equal_fonts_by_reorder_written_identically**: the class of `==`-equal libs for which the full
+    statement holds — equal by reordering where the sort reaches: they compare equal *and* are written
+    identically.  What is left of `==` (reordering inside arrays) is the counterexample below. -/
+theorem equal_fonts_by_reorder_written_identically {v v' : PV} (h : Reorder v v') (hw : WFAll v) :
+    pvEq v v' = true ∧ sortRec v = sortRec v' :=
+  ⟨pvEq_of_reorder h hw, sortRec_reorder h (wf_of_wfAll v hw)⟩
+
 def libA : PV := .dict [("a".toList, .arr [.dict [("y".toList, .int 1), ("x".toList, .int 2)]])]
 def libB : PV := .dict [("a".toList, .arr [.dict [("x".toList, .int 2), ("y".toList, .int 1)]])]
 
